@@ -99,8 +99,19 @@ impl StatusList2021 {
   /// Attempts to parse a [`StatusList2021`] from a string, following the
   /// [StatusList2021 expansion algorithm](https://www.w3.org/TR/2023/WD-vc-status-list-20230427/#bitstring-expansion-algorithm).
   pub fn try_from_encoded_str(s: &str) -> Result<Self, StatusListError> {
+    // Lists are also served in the URL-safe alphabet (the examples of the specification) and with padding: the same
+    // bits in another spelling.
+    let normalized: String = s
+      .trim_end_matches('=')
+      .chars()
+      .map(|c| match c {
+        '-' => '+',
+        '_' => '/',
+        other => other,
+      })
+      .collect();
     let compressed_status_list =
-      BaseEncoding::decode(s, Base::Base64).or(Err(StatusListError::InvalidEncoding(s.to_owned())))?;
+      BaseEncoding::decode(&normalized, Base::Base64).or(Err(StatusListError::InvalidEncoding(s.to_owned())))?;
     let status_list = {
       use std::io::Read;
 
